@@ -204,9 +204,26 @@ func regexOperators(re string) ([]string, error) {
 }
 
 // separatorOf resolves the separator string a substitution function partitions on.
+// separatorOf finds the separator a substitution function splits its operand on: the separator argument of a
+// splitting call (strings.Cut / SplitN / Split / Index / Contains), reached directly or through helpers of
+// package template whose string and boolean parameters are bound to the constants of the call site.
 func (c *Ctx) separatorOf(fn *ssa.Function, depth int) (string, bool) {
-	if fn == nil || depth == 0 {
+	return c.separatorIn(fn, nil, nil, depth)
+}
+
+var stdSplitters = map[string]int{"strings.Cut": 1, "strings.SplitN": 1, "strings.Split": 1, "strings.Index": 1, "strings.Contains": 1}
+
+func (c *Ctx) separatorIn(fn *ssa.Function, benv map[*ssa.Parameter]bool, senv map[*ssa.Parameter]string, depth int) (string, bool) {
+	if fn == nil || depth == 0 || fn.Blocks == nil {
 		return "", false
+	}
+	evalS := func(v ssa.Value) (string, bool) {
+		if pa, ok := v.(*ssa.Parameter); ok {
+			if sv, bound := senv[pa]; bound {
+				return sv, true
+			}
+		}
+		return c.evalStringArg(v, benv)
 	}
 	for _, b := range fn.Blocks {
 		for _, in := range b.Instrs {
@@ -215,27 +232,32 @@ func (c *Ctx) separatorOf(fn *ssa.Function, depth int) (string, bool) {
 				continue
 			}
 			cal := call.Call.StaticCallee()
-			if cal == nil || !c.P.InModule(cal) {
+			if cal == nil {
 				continue
 			}
-			switch c.P.FuncID(cal) {
-			case "template.partition":
-				return c.evalStringArg(call.Call.Args[1], nil)
-			case "template.withRequired":
-				return prog.ConstString(call.Call.Args[2])
-			case "template.withDefaultWhenAbsence", "template.withDefaultWhenPresence":
-				bv, isC := constBool(call.Call.Args[2])
-				if !isC {
-					return "", false
+			if idx, isSplit := stdSplitters[calleeName(cal)]; isSplit && idx < len(call.Call.Args) {
+				if sv, ok := evalS(call.Call.Args[idx]); ok && sv != "" {
+					return sv, true
 				}
-				// the callee's partition separator, evaluated with the flag bound
-				for _, cb := range cal.Blocks {
-					for _, cin := range cb.Instrs {
-						if pc, ok := cin.(*ssa.Call); ok && pc.Call.StaticCallee() != nil && c.P.FuncID(pc.Call.StaticCallee()) == "template.partition" {
-							return c.evalStringArg(pc.Call.Args[1], map[*ssa.Parameter]bool{cal.Params[2]: bv})
-						}
-					}
+				continue
+			}
+			if !c.P.InModule(cal) || !strings.HasPrefix(c.P.FuncID(cal), "template.") || cal == fn {
+				continue
+			}
+			// bind the callee's parameters to what is constant at this call site
+			b2, s2 := map[*ssa.Parameter]bool{}, map[*ssa.Parameter]string{}
+			for i, pa := range cal.Params {
+				if i >= len(call.Call.Args) {
+					break
 				}
+				if bv, isC := constBool(call.Call.Args[i]); isC {
+					b2[pa] = bv
+				} else if sv, ok := evalS(call.Call.Args[i]); ok && isStringType(pa.Type()) {
+					s2[pa] = sv
+				}
+			}
+			if sv, ok := c.separatorIn(cal, b2, s2, depth-1); ok {
+				return sv, true
 			}
 		}
 	}
@@ -363,6 +385,79 @@ func (c *Ctx) TPL(rule string) []report.Obligation {
 	} else {
 		out = append(out, anchorViolation(rule+"-1", "template.substitutionBraced"))
 	}
+	// ---- TPL-6: an operator function says "not applied" only when its operator is not in the substitution.
+	// The caller continues with the rest of the template only when a function reports applied: reporting false
+	// after the operator was recognised drops the text that follows.
+	{
+		shape := func(f *ssa.Function) bool {
+			res := f.Signature.Results()
+			return res.Len() == 3 && isStringType(res.At(0).Type()) && isBoolType(res.At(1).Type()) && isErrorType(res.At(2).Type())
+		}
+		set := map[*ssa.Function]bool{}
+		var add func(f *ssa.Function, d int)
+		add = func(f *ssa.Function, d int) {
+			if f == nil || set[f] || d == 0 || f.Blocks == nil || !shape(f) {
+				return
+			}
+			set[f] = true
+			for _, cs := range callSites(f, func(com *ssa.CallCommon) bool {
+				cal := com.StaticCallee()
+				return cal != nil && c.P.InModule(cal) && strings.HasPrefix(c.P.FuncID(cal), "template.")
+			}) {
+				add(cs.Common().StaticCallee(), d-1)
+			}
+		}
+		for _, r := range rows {
+			add(r.fn, 3)
+		}
+		notFound := func(cond ssa.Value, val bool) bool {
+			switch x := cond.(type) {
+			case *ssa.Call:
+				return staticName(&x.Call) == "strings.Contains" && !val
+			case *ssa.Extract:
+				// the found flag of strings.Cut or of a splitting helper
+				if call, ok := x.Tuple.(*ssa.Call); ok && isBoolType(x.Type()) && !val {
+					if cal := call.Call.StaticCallee(); cal != nil && (calleeName(cal) == "strings.Cut" || strings.HasPrefix(c.P.FuncID(cal), "template.")) {
+						return true
+					}
+				}
+			case *ssa.BinOp:
+				if call, ok := x.X.(*ssa.Call); ok && staticName(&call.Call) == "strings.Index" {
+					k, isC := constInt(x.Y)
+					return isC && (x.Op == token.LSS && k == 0 && val || x.Op == token.GEQ && k == 0 && !val || x.Op == token.EQL && k == -1 && val)
+				}
+			}
+			return false
+		}
+		var ids []string
+		byID := map[string]*ssa.Function{}
+		for f := range set {
+			ids = append(ids, c.P.FuncID(f))
+			byID[c.P.FuncID(f)] = f
+		}
+		sort.Strings(ids)
+		for _, id := range ids {
+			f := byID[id]
+			good, n := true, 0
+			pos := c.P.Pos(f.Pos())
+			for _, r := range returnsOf(f) {
+				bv, isC := constBool(retValue(r, 1))
+				if !isC || bv || !isNilOrConst(retValue(r, 2)) {
+					continue
+				}
+				n++
+				if !factHolds(r.Block(), notFound) {
+					good = false
+					pos = c.P.InstrPos(r)
+				}
+			}
+			if n == 0 {
+				continue // forwards the verdict of a helper
+			}
+			out = append(out, verdict(good, rule+"-6", id+" :: not applied only when the operator is absent", pos,
+				"every `applied = false` result without error lies on the operator-not-found edge", "the function reports `not applied` after its operator was found: the caller then drops the rest of the template (later substitutions are not expanded, later errors not raised)"))
+		}
+	}
 	want := []string{"+", "-", ":+", ":-", ":?", "?"}
 	out = append(out, verdict(strings.Join(tableOps, " ") == strings.Join(want, " "), rule+"-1", "operator table :: six operators", c.P.Pos(sel.Pos()),
 		fmt.Sprintf("%v", tableOps), fmt.Sprintf("the table handles %v, the grammar has %v", tableOps, want)))
@@ -374,7 +469,21 @@ func (c *Ctx) TPL(rule string) []report.Obligation {
 			out = append(out, anchorViolation(rule+"-2", id))
 			continue
 		}
-		part := c.callsTo(f, "template.partition")
+		// the call that splits the operand at the operator: a helper (string, string) -> (string, string, ...) of the
+		// package, or strings.Cut
+		part := callSites(f, func(com *ssa.CallCommon) bool {
+			cal := com.StaticCallee()
+			if cal == nil {
+				return false
+			}
+			if calleeName(cal) == "strings.Cut" {
+				return true
+			}
+			sig := cal.Signature
+			return c.P.InModule(cal) && strings.HasPrefix(c.P.FuncID(cal), "template.") && sig.Params().Len() == 2 && sig.Results().Len() >= 2 &&
+				isStringType(sig.Params().At(0).Type()) && isStringType(sig.Params().At(1).Type()) &&
+				isStringType(sig.Results().At(0).Type()) && isStringType(sig.Results().At(1).Type())
+		})
 		sub := c.callsTo(f, "template.Substitute")
 		good := false
 		if len(part) == 1 && len(sub) >= 1 {
